@@ -50,4 +50,322 @@ theorem read_fast (n yy : Nat) (be : Bool) (k fuel : Nat) (s : CSt) (hyy : 8 * n
     simp [readTmpl_eq, execL, Tm.exec, hseek, Cond.eval, hcond, Atom.exec, hav, hval]
   exact ⟨_, h, rfl, hseek, rfl, rfl⟩
 
+/-- the `while (true)` of the slow path, entered (fresh or resumed) with the
+partial value of `taken` in the scratch word -/
+theorem read_from_loop (n yy : Nat) (be : Bool) (fuel : Nat) (s : CSt) (taken : List Nat)
+    (hn8 : n ≤ 8) (hyy : 8 * n ≤ yy) (hseek : s.seek = false) (hle : s.iop ≤ s.buf.length)
+    (hbuf : ∀ x ∈ s.buf, x < 256) (htaken : ∀ x ∈ taken, x < 256) (hlen : taken.length < n)
+    (hs : s.scratch = partialV be taken) (hfuel : s.buf.length - s.iop < fuel) :
+    (n ≤ taken.length + (s.buf.length - s.iop) →
+      ∃ s', execL fuel [.whileTrue (loopBody n yy be)] s = some (.normal s') ∧ Keeps s s' ∧
+        s'.iop = s.iop + (n - taken.length) ∧
+        s'.t = peek be (taken ++ (s.buf.drop s.iop).take (n - taken.length))) ∧
+    (taken.length + (s.buf.length - s.iop) < n →
+      ∃ s', execL fuel [.whileTrue (loopBody n yy be)] s = some (.susp s') ∧ Keeps s s' ∧
+        s'.iop = s.buf.length ∧ s'.scratch = partialV be (taken ++ s.buf.drop s.iop)) := by
+  obtain ⟨s3, hk, hres⟩ := slow_loop n yy be hn8 hyy fuel (s.buf.drop s.iop) taken s fuel
+    hseek hle rfl hbuf htaken hlen hs (by simp; omega)
+  have hdl : (s.buf.drop s.iop).length = s.buf.length - s.iop := by simp
+  rw [hdl] at hres
+  constructor
+  · intro hge
+    rcases hres with ⟨_, hw, hi, ht⟩ | ⟨hlt, _, _, _⟩
+    · exact ⟨s3, by simp [execL, Tm.exec, hseek, hw], hk, hi, ht⟩
+    · omega
+  · intro hlt
+    rcases hres with ⟨hge, _, _, _⟩ | ⟨_, hw, hi, hsc⟩
+    · omega
+    · exact ⟨s3, by simp [execL, Tm.exec, hseek, hw], hk, hi, hsc⟩
+
+theorem partialV_nil (be : Bool) : partialV be [] = 0 := by
+  cases be <;> simp [partialV, valBE, valLE]
+
+/-- what a call of the template ends in: the field complete, or a suspension at
+`case k + 1:` with everything consumed and the partial value in the scratch word -/
+structure ReadDone (be : Bool) (k : Nat) (s s' : CSt) (field : List Nat) : Prop where
+  buf : s'.buf = s.buf
+  seek : s'.seek = false
+  dest : s'.dest = s.dest ++ [peek be field]
+
+structure ReadSusp (be : Bool) (k : Nat) (s s' : CSt) (sofar : List Nat) : Prop where
+  buf : s'.buf = s.buf
+  pt : s'.pt = k + 1
+  iop : s'.iop = s.buf.length
+  dest : s'.dest = s.dest
+  scratch : s'.scratch = partialV be sofar
+
+/-- a fresh entry without the whole field in the buffer goes through
+`scratch = 0; case k + 1:` into the loop, and stores the value when the loop is left -/
+theorem readTmpl_slow_eq (n yy : Nat) (be : Bool) (k fuel : Nat) (s : CSt)
+    (hseek : s.seek = false) (hav : s.buf.length - s.iop < n) :
+    execL fuel [readTmpl n yy be k] s =
+      match execL fuel [.whileTrue (loopBody n yy be)] { s with pt := k + 1, scratch := 0 } with
+      | some (.normal s') => execL fuel [.atom .store] s'
+      | o => o := by
+  have hcond : decide (n ≤ s.buf.length - s.iop) = false := by simp; omega
+  obtain ⟨buf, iop, scratch, t, nb, pt, seek, dest, arg, short⟩ := s
+  simp only at hseek hcond
+  subst hseek
+  simp only [readTmpl_eq, execL, Tm.exec, Cond.eval, hcond, Atom.exec, Option.map,
+    Bool.false_eq_true, ↓reduceIte, Bool.false_and]
+  generalize whileIter fuel _ _ = w
+  rcases w with _ | (s' | s' | s') <;> simp <;> (cases hs : s'.seek <;> simp)
+
+/-- a resumed call (`coro_susp_point = k + 1`) skips to `case k + 1:` — the
+assignment `scratch = 0` before it is NOT executed — and is in the loop -/
+theorem readTmpl_resume_eq (n yy : Nat) (be : Bool) (k fuel : Nat) (s : CSt)
+    (hseek : s.seek = true) (hpt : s.pt = k + 1) :
+    execL fuel [readTmpl n yy be k] s =
+      match execL fuel [.whileTrue (loopBody n yy be)] { s with seek := false } with
+      | some (.normal s') => execL fuel [.atom .store] s'
+      | o => o := by
+  obtain ⟨buf, iop, scratch, t, nb, pt, seek, dest, arg, short⟩ := s
+  simp only at hseek hpt
+  subst hseek hpt
+  have h1 : (k + 1 == k) = false := by simp
+  simp only [readTmpl_eq, execL, Tm.exec, hasPointL, Tm.hasPoint, h1, Bool.or_false,
+    ↓reduceIte, beq_self_eq_true, Bool.true_or, Bool.or_true, Bool.false_eq_true, Bool.false_and]
+  generalize whileIter fuel _ _ = w
+  rcases w with _ | (s' | s' | s') <;> simp <;> (cases hs : s'.seek <;> simp [Atom.exec])
+
+/-- **read_enter_slow.**  A fresh entry with fewer than `n` bytes in the buffer:
+the scratch word is cleared, all the bytes there are go into it, and the call
+suspends at the SECOND suspension point of the template. -/
+theorem read_enter_slow (n yy : Nat) (be : Bool) (k fuel : Nat) (s : CSt) (hn8 : n ≤ 8) (hyy : 8 * n ≤ yy)
+    (hseek : s.seek = false) (hle : s.iop ≤ s.buf.length) (hbuf : ∀ x ∈ s.buf, x < 256)
+    (hav : s.buf.length - s.iop < n) (hfuel : s.buf.length - s.iop < fuel) :
+    ∃ s', execL fuel [readTmpl n yy be k] s = some (.susp s') ∧ ReadSusp be k s s' (s.buf.drop s.iop) := by
+  obtain ⟨s3, hw, ⟨k1, k2, k3, k4, k5⟩, hi, hsc⟩ := (read_from_loop n yy be fuel
+    { s with pt := k + 1, scratch := 0 } [] hn8 hyy hseek hle hbuf
+    (by simp) (by simp; omega) (partialV_nil be).symm hfuel).2 (by simpa using hav)
+  refine ⟨s3, ?_, ⟨k1, k2, hi, k4, by simpa using hsc⟩⟩
+  rw [readTmpl_slow_eq n yy be k fuel s hseek hav, hw]
+
+/-- **read_resume.**  A call that is resumed at `case k + 1:` with the partial
+value of the bytes `taken` (fewer than `n`) in the scratch word continues with
+exactly that value: given the rest of the field it stores the value of
+`taken ++ rest` and consumes only the rest; given less, it takes what there is
+and suspends again with the longer partial value. -/
+theorem read_resume (n yy : Nat) (be : Bool) (k fuel : Nat) (s : CSt) (taken : List Nat)
+    (hn8 : n ≤ 8) (hyy : 8 * n ≤ yy) (hseek : s.seek = true) (hpt : s.pt = k + 1)
+    (hle : s.iop ≤ s.buf.length) (hbuf : ∀ x ∈ s.buf, x < 256) (htaken : ∀ x ∈ taken, x < 256)
+    (hlen : taken.length < n) (hs : s.scratch = partialV be taken) (hfuel : s.buf.length - s.iop < fuel) :
+    (n ≤ taken.length + (s.buf.length - s.iop) →
+      ∃ s', execL fuel [readTmpl n yy be k] s = some (.normal s') ∧
+        ReadDone be k s s' (taken ++ (s.buf.drop s.iop).take (n - taken.length)) ∧
+        s'.iop = s.iop + (n - taken.length)) ∧
+    (taken.length + (s.buf.length - s.iop) < n →
+      ∃ s', execL fuel [readTmpl n yy be k] s = some (.susp s') ∧
+        ReadSusp be k s s' (taken ++ s.buf.drop s.iop)) := by
+  have hloop := read_from_loop n yy be fuel { s with seek := false } taken hn8 hyy rfl hle hbuf htaken hlen hs hfuel
+  rw [readTmpl_resume_eq n yy be k fuel s hseek hpt]
+  constructor
+  · intro hge
+    obtain ⟨s3, hw, ⟨k1, k2, k3, k4, k5⟩, hi, ht⟩ := hloop.1 hge
+    have hs3 : s3.seek = false := k3
+    refine ⟨{ s3 with dest := s3.dest ++ [s3.t] }, ?_, ⟨k1, hs3, by simp [k4, ht]⟩, hi⟩
+    rw [hw]
+    simp [execL, Tm.exec, hs3, Atom.exec]
+  · intro hlt
+    obtain ⟨s3, hw, ⟨k1, k2, k3, k4, k5⟩, hi, hsc⟩ := hloop.2 hlt
+    refine ⟨s3, by rw [hw], ⟨k1, by rw [k2]; exact hpt, hi, k4, hsc⟩⟩
+
+/-! ## Whole calls of the C function, and a stream that arrives in pieces -/
+
+theorem take_drop_len (l : List Nat) (r m : Nat) (h : r + m ≤ l.length) : ((l.drop r).take m).length = m := by
+  simp; omega
+
+theorem take_take_drop (l : List Nat) (a r m : Nat) (h : r + m ≤ a) :
+    ((l.take a).drop r).take m = (l.drop r).take m := by
+  rw [List.drop_take, List.take_take]
+  congr 1; omega
+
+theorem drop_take_all (l : List Nat) (a r : Nat) : (l.take a).drop r = (l.drop r).take (a - r) := by
+  rw [List.drop_take]
+
+theorem take_split (l : List Nat) (r m1 m2 : Nat) :
+    (l.drop r).take m1 ++ (l.drop (r + m1)).take m2 = (l.drop r).take (m1 + m2) := by
+  rw [List.take_add, List.drop_drop]
+
+/-- a first call (`p_f = 0`) on the stream's first `a` bytes, the reader at `f.ri` -/
+theorem read_call_fresh (n yy : Nat) (be : Bool) (fuel : Nat) (stream : List Nat) (arg : Nat) (f : Frame) (a : Nat)
+    (hn8 : n ≤ 8) (hyy : 8 * n ≤ yy) (hbytes : ∀ x ∈ stream, x < 256) (ha : a ≤ stream.length)
+    (hfuel : stream.length < fuel) (hp : f.p = 0) (hri : f.ri ≤ a) :
+    (f.ri + n ≤ a → ∃ f', call fuel [readTmpl n yy be 1] (stream.take a) arg f = some (true, f') ∧
+        f'.p = 0 ∧ f'.ri = f.ri + n ∧ f'.dest = f.dest ++ [peek be ((stream.drop f.ri).take n)]) ∧
+    (a < f.ri + n → ∃ f', call fuel [readTmpl n yy be 1] (stream.take a) arg f = some (false, f') ∧
+        f'.p = 2 ∧ f'.ri = a ∧ f'.dest = f.dest ∧
+        f'.scratch = partialV be ((stream.drop f.ri).take (a - f.ri))) := by
+  have hlen : (stream.take a).length = a := by simp; omega
+  have hb : ∀ x ∈ stream.take a, x < 256 := fun x hx => hbytes x (List.mem_of_mem_take hx)
+  have hp' : (f.p != 0) = false := by simp [hp]
+  constructor
+  · intro hge
+    obtain ⟨s', hw, h1, h2, h3, h4⟩ := read_fast n yy be 1 fuel
+      { buf := stream.take a, iop := f.ri, scratch := f.scratch, pt := f.p, seek := false, dest := f.dest, arg := arg }
+      hyy rfl hb (by simp only [hlen]; omega)
+    refine ⟨{ p := 0, scratch := s'.scratch, ri := s'.iop, dest := s'.dest }, ?_, rfl, h3, ?_⟩
+    · simp only [call, hp', hw, h2, Bool.false_eq_true, ↓reduceIte]
+    · simp only [h4, take_take_drop stream a f.ri n hge]
+  · intro hlt
+    obtain ⟨s', hw, h1, h2, h3, h4, h5⟩ := read_enter_slow n yy be 1 fuel
+      { buf := stream.take a, iop := f.ri, scratch := f.scratch, pt := f.p, seek := false, dest := f.dest, arg := arg }
+      hn8 hyy rfl (by simp only [hlen]; exact hri) hb (by simp only [hlen]; omega) (by simp only [hlen]; omega)
+    refine ⟨{ p := s'.pt, scratch := s'.scratch, ri := s'.iop, dest := s'.dest }, ?_, h2, ?_, h4, ?_⟩
+    · simp only [call, hp', hw]
+    · simp only [h3, hlen]
+    · simp only [h5, drop_take_all]
+
+/-- a resumed call (`p_f = 2`): the field began at `r0`, the bytes up to `f.ri`
+are in the scratch word -/
+theorem read_call_resumed (n yy : Nat) (be : Bool) (fuel : Nat) (stream : List Nat) (arg : Nat) (f : Frame) (a r0 : Nat)
+    (hn8 : n ≤ 8) (hyy : 8 * n ≤ yy) (hbytes : ∀ x ∈ stream, x < 256) (ha : a ≤ stream.length)
+    (hfuel : stream.length < fuel) (hp : f.p = 2) (hr0 : r0 ≤ f.ri) (hri : f.ri ≤ a) (hpart : f.ri - r0 < n)
+    (hsc : f.scratch = partialV be ((stream.drop r0).take (f.ri - r0))) :
+    (r0 + n ≤ a → ∃ f', call fuel [readTmpl n yy be 1] (stream.take a) arg f = some (true, f') ∧
+        f'.p = 0 ∧ f'.ri = r0 + n ∧ f'.dest = f.dest ++ [peek be ((stream.drop r0).take n)]) ∧
+    (a < r0 + n → ∃ f', call fuel [readTmpl n yy be 1] (stream.take a) arg f = some (false, f') ∧
+        f'.p = 2 ∧ f'.ri = a ∧ f'.dest = f.dest ∧
+        f'.scratch = partialV be ((stream.drop r0).take (a - r0))) := by
+  have hlen : (stream.take a).length = a := by simp; omega
+  have hb : ∀ x ∈ stream.take a, x < 256 := fun x hx => hbytes x (List.mem_of_mem_take hx)
+  have hp' : (f.p != 0) = true := by simp [hp]
+  have htl : ((stream.drop r0).take (f.ri - r0)).length = f.ri - r0 := take_drop_len stream r0 _ (by omega)
+  have htb : ∀ x ∈ (stream.drop r0).take (f.ri - r0), x < 256 :=
+    fun x hx => hbytes x (List.mem_of_mem_drop (List.mem_of_mem_take hx))
+  have hle' : f.ri ≤ (stream.take a).length := by rw [hlen]; exact hri
+  have hfuel' : (stream.take a).length - f.ri < fuel := by simp only [hlen]; omega
+  have hpl : ((stream.drop r0).take (f.ri - r0)).length < n := by rw [htl]; exact hpart
+  have e0 : r0 + (f.ri - r0) = f.ri := by omega
+  constructor
+  · intro hge
+    have hge' : n ≤ ((stream.drop r0).take (f.ri - r0)).length + ((stream.take a).length - f.ri) := by
+      rw [htl, hlen]; omega
+    have e2 : f.ri - r0 + (n - (f.ri - r0)) = n := by omega
+    have e3 : f.ri + (n - (f.ri - r0)) = r0 + n := by omega
+    have e4 : f.ri + (n - (f.ri - r0)) ≤ a := by omega
+    obtain ⟨s', hw, ⟨h1, h2, h3⟩, h4⟩ := (read_resume n yy be 1 fuel
+      { buf := stream.take a, iop := f.ri, scratch := f.scratch, pt := f.p, seek := true, dest := f.dest, arg := arg }
+      ((stream.drop r0).take (f.ri - r0)) hn8 hyy rfl hp hle' hb htb hpl hsc hfuel').1 hge'
+    simp only [htl] at h3 h4
+    refine ⟨{ p := 0, scratch := s'.scratch, ri := s'.iop, dest := s'.dest }, ?_, rfl, by simp only [h4, e3], ?_⟩
+    · simp only [call, hp', hw, h2, Bool.false_eq_true, ↓reduceIte]
+    · rw [h3]
+      have e1 : ((stream.take a).drop f.ri).take (n - (f.ri - r0)) = (stream.drop (r0 + (f.ri - r0))).take (n - (f.ri - r0)) := by
+        rw [e0]
+        exact take_take_drop stream a f.ri _ e4
+      simp only [e1, take_split, e2]
+  · intro hlt
+    have hlt' : ((stream.drop r0).take (f.ri - r0)).length + ((stream.take a).length - f.ri) < n := by
+      rw [htl, hlen]; omega
+    have e2 : f.ri - r0 + (a - f.ri) = a - r0 := by omega
+    obtain ⟨s', hw, h1, h2, h3, h4, h5⟩ := (read_resume n yy be 1 fuel
+      { buf := stream.take a, iop := f.ri, scratch := f.scratch, pt := f.p, seek := true, dest := f.dest, arg := arg }
+      ((stream.drop r0).take (f.ri - r0)) hn8 hyy rfl hp hle' hb htb hpl hsc hfuel').2 hlt'
+    refine ⟨{ p := s'.pt, scratch := s'.scratch, ri := s'.iop, dest := s'.dest }, ?_, h2, ?_, h4, ?_⟩
+    · simp only [call, hp', hw]
+    · simp only [h3, hlen]
+    · rw [h5]
+      simp only [drop_take_all]
+      have e1 : (stream.drop f.ri).take (a - f.ri) = (stream.drop (r0 + (f.ri - r0))).take (a - f.ri) := by
+        rw [e0]
+      rw [e1, take_split, e2]
+
+/-- the frame between two calls while the field that began at `r0` is being read -/
+def Mid (n : Nat) (be : Bool) (stream : List Nat) (r0 : Nat) (d0 : List Nat) (f : Frame) : Prop :=
+  f.p = 2 ∧ r0 ≤ f.ri ∧ f.ri - r0 < n ∧
+    f.scratch = partialV be ((stream.drop r0).take (f.ri - r0)) ∧ f.dest = d0
+
+theorem drive_mid (n yy : Nat) (be : Bool) (fuel : Nat) (stream : List Nat) (arg r0 : Nat) (d0 : List Nat)
+    (hn8 : n ≤ 8) (hyy : 8 * n ≤ yy) (hbytes : ∀ x ∈ stream, x < 256) (hfuel : stream.length < fuel) :
+    ∀ (avails : List Nat) (f : Frame), Mid n be stream r0 d0 f → avails.Pairwise (· ≤ ·) →
+      (∀ a ∈ avails, f.ri ≤ a ∧ a ≤ stream.length) → (∃ a ∈ avails, r0 + n ≤ a) →
+      ∃ f', drive fuel [readTmpl n yy be 1] stream arg avails f = some (true, f') ∧
+        f'.p = 0 ∧ f'.ri = r0 + n ∧ f'.dest = d0 ++ [peek be ((stream.drop r0).take n)] := by
+  intro avails
+  induction avails with
+  | nil => intro f _ _ _ hex; obtain ⟨a, ha, _⟩ := hex; cases ha
+  | cons a r ih =>
+    intro f hmid hpw hall hex
+    obtain ⟨hp, hr0, hpart, hsc, hd⟩ := hmid
+    obtain ⟨hri, ha⟩ := hall a (by simp)
+    have hcall := read_call_resumed n yy be fuel stream arg f a r0 hn8 hyy hbytes ha hfuel hp hr0 hri hpart hsc
+    by_cases hge : r0 + n ≤ a
+    · obtain ⟨f', hc, h1, h2, h3⟩ := hcall.1 hge
+      exact ⟨f', by simp only [drive, hc], h1, h2, by rw [h3, hd]⟩
+    · obtain ⟨f', hc, h1, h2, h3, h4⟩ := hcall.2 (by omega)
+      have hpw' := List.pairwise_cons.mp hpw
+      obtain ⟨f'', hd', g1, g2, g3⟩ := ih f' ⟨h1, by omega, by omega, by rw [h4, h2], by rw [h3, hd]⟩ hpw'.2
+        (fun a' ha' => ⟨by rw [h2]; exact hpw'.1 a' ha', (hall a' (by simp [ha'])).2⟩)
+        (by
+          obtain ⟨x, hx, hxge⟩ := hex
+          rcases List.mem_cons.mp hx with rfl | hx'
+          · omega
+          · exact ⟨x, hx', hxge⟩)
+      exact ⟨f'', by simp only [drive, hc, hd'], g1, g2, g3⟩
+
+/-- **read_split_invariant.**  The C of `x = args.src.read_uNNxe?()` (2 to 8
+bytes, either byte order), driven by calls that see the first `a₁ ≤ a₂ ≤ …`
+bytes of the stream, starting at position `r0` with ANY value left in the
+scratch word by whatever ran before: as soon as some call sees the whole field,
+the coroutine returns ok having stored the value of the field's `n` bytes —
+the same value the one-piece run (`read_fast`) stores — and consumed exactly
+those `n` bytes.  How the stream was cut does not matter. -/
+theorem read_split_invariant (n yy : Nat) (be : Bool) (fuel : Nat) (stream : List Nat) (arg r0 stale : Nat)
+    (d0 : List Nat) (hn8 : n ≤ 8) (hyy : 8 * n ≤ yy) (hbytes : ∀ x ∈ stream, x < 256)
+    (hfuel : stream.length < fuel) (avails : List Nat) (hpw : avails.Pairwise (· ≤ ·))
+    (hall : ∀ a ∈ avails, r0 ≤ a ∧ a ≤ stream.length) (hex : ∃ a ∈ avails, r0 + n ≤ a) :
+    ∃ f', drive fuel [readTmpl n yy be 1] stream arg avails { p := 0, scratch := stale, ri := r0, dest := d0 } =
+        some (true, f') ∧
+      f'.p = 0 ∧ f'.ri = r0 + n ∧ f'.dest = d0 ++ [peek be ((stream.drop r0).take n)] := by
+  cases avails with
+  | nil => obtain ⟨a, ha, _⟩ := hex; cases ha
+  | cons a r =>
+    obtain ⟨hri, ha⟩ := hall a (by simp)
+    have hcall := read_call_fresh n yy be fuel stream arg { p := 0, scratch := stale, ri := r0, dest := d0 } a
+      hn8 hyy hbytes ha hfuel rfl hri
+    by_cases hge : r0 + n ≤ a
+    · obtain ⟨f', hc, h1, h2, h3⟩ := hcall.1 hge
+      exact ⟨f', by simp only [drive, hc], h1, h2, h3⟩
+    · obtain ⟨f', hc, h1, h2, h3, h4⟩ := hcall.2 (by simp only; omega)
+      have hpw' := List.pairwise_cons.mp hpw
+      obtain ⟨f'', hd', g1, g2, g3⟩ := drive_mid n yy be fuel stream arg r0 d0 hn8 hyy hbytes hfuel r f'
+        ⟨h1, by rw [h2]; exact hri, by rw [h2]; omega, by rw [h4, h2], h3⟩ hpw'.2
+        (fun a' ha' => ⟨by rw [h2]; exact hpw'.1 a' ha', (hall a' (by simp [ha'])).2⟩)
+        (by
+          obtain ⟨x, hx, hxge⟩ := hex
+          rcases List.mem_cons.mp hx with rfl | hx'
+          · omega
+          · exact ⟨x, hx', hxge⟩)
+      exact ⟨f'', by simp only [drive, hc, hd'], g1, g2, g3⟩
+
+/-! ## seeded/C04-m3: `scratch = 0;` behind the suspension point -/
+
+/-- With `scratch = 0;` moved behind `case k + 1:` (`readTmplM3`) the resumed
+call wipes the partial value: `read_u32le?` on the bytes 11 22 33 44 55 66 77 88 99
+given as 1 + 2 + rest stores 0x77665544 and has consumed 7 bytes, where the
+unchanged template stores 0x44332211 and has consumed 4 — on the same input. -/
+theorem read_m3_loses_partial_value :
+    (drive 20 [readTmplM3 4 32 false 1] [0x11, 0x22, 0x33, 0x44, 0x55, 0x66, 0x77, 0x88, 0x99] 0 [1, 3, 9] {}).map
+        (fun r => (r.1, r.2.ri, r.2.dest)) = some (true, 7, [0x77665544]) ∧
+    (drive 20 [readTmpl 4 32 false 1] [0x11, 0x22, 0x33, 0x44, 0x55, 0x66, 0x77, 0x88, 0x99] 0 [1, 3, 9] {}).map
+        (fun r => (r.1, r.2.ri, r.2.dest)) = some (true, 4, [0x44332211]) := by
+  constructor <;> decide +kernel
+
+/-- non-vacuity of `read_split_invariant`: `read_u24be_as_u32?` at position 2, three pieces -/
+example : ∃ f', drive 20 [readTmpl 3 32 true 1] [1, 2, 3, 4, 5, 6] 0 [2, 3, 4, 6] { p := 0, scratch := 12345, ri := 2, dest := [] } =
+    some (true, f') ∧ f'.p = 0 ∧ f'.ri = 2 + 3 ∧ f'.dest = [] ++ [peek true (([1, 2, 3, 4, 5, 6].drop 2).take 3)] :=
+  read_split_invariant 3 32 true 20 [1, 2, 3, 4, 5, 6] 0 2 12345 [] (by omega) (by omega)
+    (by decide) (by decide) [2, 3, 4, 6] (by decide) (by decide) (by decide)
+
+/-- the skeleton of the multi-byte read template, in the token language of harness/cmd/c04/skel.go -/
+example : showTms [readTmpl 4 32 false 1] =
+    ["{", "P", "A", "I{", "A", "A", "}E{", "A", "P", "W{", "I{", "A", "G:s", "}", "A", "A", "A", "A", "A",
+     "I{", "A", "B", "}", "A", "A", "}", "}", "A", "}"] := by decide
+
+/-- … and of the seeded change: the same statements, `P` and `scratch = 0` swapped -/
+example : showTms [readTmplM3 4 32 false 1] =
+    ["{", "P", "A", "I{", "A", "A", "}E{", "P", "A", "W{", "I{", "A", "G:s", "}", "A", "A", "A", "A", "A",
+     "I{", "A", "B", "}", "A", "A", "}", "}", "A", "}"] := by decide
+
 end WuffsVerif.Props.C04Coro
